@@ -283,14 +283,16 @@ type eobs struct {
 	SeenVia  []string `json:"seen_via"`
 	TagA     string   `json:"tag_a"`
 	TagB     string   `json:"tag_b"`
+	TagM     string   `json:"tag_m,omitempty"`
 	Err      string   `json:"err,omitempty"`
 }
 
 type rig struct {
-	O          *g01rig.Origin
-	P          *g01rig.Origin // scripted upstream HTTP proxy (records what a real upstream proxy would receive)
-	A, B       *g01rig.Proxy
-	tagA, tagB string
+	O                *g01rig.Origin
+	P                *g01rig.Origin // scripted upstream HTTP proxy (records what a real upstream proxy would receive)
+	T                *g01rig.Origin // TLS origin (target of intercepted tunnels)
+	A, B, M          *g01rig.Proxy  // M intercepts CONNECT tunnels (MITM)
+	tagA, tagB, tagM string
 }
 
 func learnTag(o *g01rig.Origin, p *g01rig.Proxy) (string, error) {
@@ -351,7 +353,18 @@ func newRig(sameName bool, nameA string) (*rig, error) {
 	if err != nil {
 		return nil, err
 	}
-	rg := &rig{O: o, P: pr, A: a, B: bp}
+	to, err := g01rig.NewTLSOrigin()
+	if err != nil {
+		return nil, err
+	}
+	mp, err := g01rig.StartProxyOpts(nameA, g01rig.ProxyOpts{ConnectHeaderCallback: true, MITM: true})
+	if err != nil {
+		return nil, err
+	}
+	rg := &rig{O: o, P: pr, T: to, A: a, B: bp, M: mp}
+	if rg.tagM, err = learnTag(o, mp); err != nil {
+		return nil, err
+	}
 	if rg.tagA, err = learnTag(o, a); err != nil {
 		return nil, err
 	}
@@ -364,8 +377,10 @@ func newRig(sameName bool, nameA string) (*rig, error) {
 func (rg *rig) stop() {
 	rg.A.Stop()
 	rg.B.Stop()
+	rg.M.Stop()
 	rg.O.Close()
 	rg.P.Close()
+	rg.T.Close()
 }
 
 func (rg *rig) run(c ecaseJSON) eobs {
@@ -382,10 +397,17 @@ func (rg *rig) run(c ecaseJSON) eobs {
 		rg.B.SetUpstream(rg.A.URL())
 	case "AP":
 		rg.A.SetUpstream(&url.URL{Scheme: "http", Host: rg.P.Addr()})
+	case "M":
+		rg.M.SetUpstream(nil)
+	case "MM":
+		rg.M.SetUpstream(rg.M.URL())
 	}
 	sink := rg.O // the peer at the end of the route
 	if c.Route == "AP" {
 		sink = rg.P
+	}
+	if strings.HasPrefix(c.Route, "M") {
+		return rg.runMITM(c)
 	}
 	rg.A.LoopGuard.Store(rg.A.Passed.Load() + 8)
 	rg.B.LoopGuard.Store(rg.B.Passed.Load() + 8)
@@ -440,6 +462,40 @@ func (rg *rig) run(c ecaseJSON) eobs {
 	return ob
 }
 
+// runMITM: the request travels inside a CONNECT tunnel that proxy M intercepts (TLS to the client, TLS to the origin).
+func (rg *rig) runMITM(c ecaseJSON) eobs {
+	rg.M.LoopGuard.Store(rg.M.Passed.Load() + 8)
+	rg.M.RouteGuard.Store(rg.M.Routed.Load() + 8)
+	sink := rg.T
+	conns0, n0 := sink.Snapshot()
+	ob := eobs{TagA: rg.tagA, TagB: rg.tagB, TagM: rg.tagM}
+	cl, err := g01rig.DialMITM(rg.M.Addr, sink.Addr())
+	if err != nil {
+		ob.Err = err.Error()
+		return ob
+	}
+	defer cl.Close()
+	fields := []g01rig.Field{{"Host", sink.Addr()}}
+	for _, l := range c.ClientVia {
+		fields = append(fields, g01rig.Field{"Via", l})
+	}
+	fields = append(fields, g01rig.Field{"Accept", "*/*"})
+	res, err := cl.Do(g01rig.BuildRequest(c.Method, "/inside?y=1", c.Proto, fields, nil), c.Method)
+	if err != nil {
+		ob.Err = err.Error()
+		return ob
+	}
+	ob.Status = res.Status
+	conns1, _ := sink.Snapshot()
+	reqs := sink.Since(n0)
+	ob.Contacts = len(reqs)
+	ob.NewConns = conns1 - conns0
+	if len(reqs) > 0 {
+		ob.SeenVia = reqs[0].Values("Via")
+	}
+	return ob
+}
+
 func (rg *rig) route(c ecaseJSON) []hopJSON {
 	maj, min := 1, 1
 	if c.Proto == "HTTP/1.0" {
@@ -460,8 +516,11 @@ func coqEcase(rg *rig, c ecaseJSON, o eobs) string {
 	var hops []string
 	for _, h := range rg.route(c) {
 		tag, inst := o.TagA, 1
-		if h.Proxy == "B" {
+		switch h.Proxy {
+		case "B":
 			tag, inst = o.TagB, 2
+		case "M":
+			tag, inst = o.TagM, 3
 		}
 		hops = append(hops, fmt.Sprintf("{| hp_inst := %d; hp_tag := %s; hp_maj := %d; hp_min := %d |}", inst, coqfmt.Str(tag), h.Maj, h.Min))
 	}
@@ -479,16 +538,16 @@ func coqEcase(rg *rig, c ecaseJSON, o eobs) string {
 
 func genEcase(r *rng.R, rg *rig, sameName bool) ecaseJSON {
 	c := ecaseJSON{SameName: sameName, Proto: "HTTP/1.1", Method: "GET"}
-	c.Route = []string{"A", "A", "AA", "AB", "ABA", "AP"}[r.Intn(6)]
+	c.Route = []string{"A", "A", "AA", "AB", "ABA", "AP", "M", "MM"}[r.Intn(8)]
 	if r.Chance(1, 4) {
 		c.Proto = "HTTP/1.0"
 	}
 	if r.Chance(1, 8) {
 		c.Method = []string{"POST", "HEAD", "DELETE", "OPTIONS"}[r.Intn(4)]
-	} else if r.Chance(1, 6) {
+	} else if r.Chance(1, 6) && !strings.HasPrefix(c.Route, "M") {
 		c.Method = "CONNECT"
 	}
-	c.Nominate = r.Chance(1, 12)
+	c.Nominate = r.Chance(1, 12) && !strings.HasPrefix(c.Route, "M")
 	ownProb := 0
 	tag, name := rg.tagA, rg.A.Name
 	switch r.Intn(6) {
@@ -497,6 +556,12 @@ func genEcase(r *rng.R, rg *rig, sameName bool) ecaseJSON {
 	case 1:
 		if strings.Contains(c.Route, "B") {
 			ownProb, c.OwnOf, tag, name = 100, "B", rg.tagB, rg.B.Name
+		}
+	}
+	if strings.HasPrefix(c.Route, "M") {
+		tag, name = rg.tagM, rg.M.Name
+		if c.OwnOf != "" {
+			c.OwnOf = "M"
 		}
 	}
 	g := genChain(r, name, tag, ownProb)
@@ -734,6 +799,13 @@ func main() {
 				ecaseJSON{Route: route, SameName: same, Proto: "HTTP/1.1", Method: "CONNECT", ClientVia: []string{"1.1 alpha", "1.1 " + rg.tagA}, OwnOf: "A"},
 			)
 		}
+		for _, route := range []string{"M", "MM"} {
+			cases = append(cases,
+				ecaseJSON{Route: route, SameName: same, Proto: "HTTP/1.1", Method: "GET"},
+				ecaseJSON{Route: route, SameName: same, Proto: "HTTP/1.1", Method: "POST", ClientVia: []string{"1.1 alpha", "1.0 beta, 1.1 gamma"}},
+				ecaseJSON{Route: route, SameName: same, Proto: "HTTP/1.0", Method: "GET", ClientVia: []string{"1.1 alpha", "1.1 " + rg.tagM + ", 1.1 later"}, OwnOf: "M"},
+			)
+		}
 		cases = append(cases,
 			ecaseJSON{Route: "A", SameName: same, Proto: "HTTP/1.1", Method: "GET", ClientVia: []string{"1.1 alpha"}, Nominate: true},
 			ecaseJSON{Route: "A", SameName: same, Proto: "HTTP/1.1", Method: "GET", ClientVia: []string{"1.1 " + rg.tagA}, OwnOf: "A", Nominate: true},
@@ -754,6 +826,7 @@ func main() {
 		}
 		m.OriginParseErr = append(m.OriginParseErr, rg.O.Errors()...)
 		m.OriginParseErr = append(m.OriginParseErr, rg.P.Errors()...)
+		m.OriginParseErr = append(m.OriginParseErr, rg.T.Errors()...)
 		rg.stop()
 	}
 	m.E2ECases = len(ec)
@@ -775,6 +848,7 @@ func untag(c ecaseJSON, rg *rig) ecaseJSON {
 	for _, l := range c.ClientVia {
 		l = strings.ReplaceAll(l, rg.tagA, "{TAG_A}")
 		l = strings.ReplaceAll(l, rg.tagB, "{TAG_B}")
+		l = strings.ReplaceAll(l, rg.tagM, "{TAG_M}")
 		out.ClientVia = append(out.ClientVia, l)
 	}
 	return out
@@ -785,6 +859,7 @@ func retag(lines []string, rg *rig) []string {
 	for _, l := range lines {
 		l = strings.ReplaceAll(l, "{TAG_A}", rg.tagA)
 		l = strings.ReplaceAll(l, "{TAG_B}", rg.tagB)
+		l = strings.ReplaceAll(l, "{TAG_M}", rg.tagM)
 		out = append(out, l)
 	}
 	return out
